@@ -625,6 +625,39 @@ func (e *Exec) box(v Val, ifaceT types.Type) Val {
 	return res
 }
 
+// boxTerm: the interface value holding v as a pure term (no fresh constant), for use inside
+// quantified contract expressions; the boxing axioms are stated once per type, quantified.
+func (e *Exec) boxTerm(v Val, ifaceT types.Type) Val {
+	T := v.T
+	name := sym("box_" + typeKey(T))
+	sorts := leafSorts(T)
+	e.once("boxfn:"+name, func() {
+		e.emit("(declare-fun " + name + " (" + strings.Join(sorts, " ") + ") Iface)")
+		for k, s := range sorts {
+			e.emit("(declare-fun " + sym(fmt.Sprintf("unbox_%s#%d", typeKey(T), k)) + " (Iface) " + s + ")")
+		}
+	})
+	ls := v.leaves()
+	if len(ls) == 0 {
+		return Val{T: ifaceT, S: name, Dyn: T}
+	}
+	e.once("boxax:"+name, func() {
+		var bs, as []string
+		for k, s := range sorts {
+			bs = append(bs, fmt.Sprintf("(bx%d %s)", k, s))
+			as = append(as, fmt.Sprintf("bx%d", k))
+		}
+		t := app(name, as...)
+		var cs []string
+		cs = append(cs, mkEq(app("itype", t), e.typeTag(T)))
+		for k := range sorts {
+			cs = append(cs, mkEq(app(sym(fmt.Sprintf("unbox_%s#%d", typeKey(T), k)), t), as[k]))
+		}
+		e.emit("(assert (forall (" + strings.Join(bs, " ") + ") (! " + mkAnd(cs...) + " :pattern (" + t + "))))")
+	})
+	return Val{T: ifaceT, S: app(name, ls...), Dyn: T}
+}
+
 func (e *Exec) unbox(x Val, T types.Type) Val {
 	if x.DynV != nil && types.Identical(x.Dyn, T) {
 		return *x.DynV
